@@ -158,6 +158,9 @@ func BuildPkt(n *wire.N) (any, error) {
 		}
 		g := protocol.NewGroupRecord(uint8(n.U["Type"]), ipOf(n.B["MulticastAddress"]), src)
 		g.NumberOfSources, g.AuxDataLen = uint16(n.U["NumberOfSources"]), uint8(n.U["AuxDataLen"])
+		for b := n.B["AuxData"]; len(b) >= 4; b = b[4:] {
+			g.AuxData = append(g.AuxData, uint32(b[0])<<24|uint32(b[1])<<16|uint32(b[2])<<8|uint32(b[3]))
+		}
 		return &g, nil
 	case "igmp3r":
 		var recs []protocol.IGMPv3GroupRecord
